@@ -420,6 +420,10 @@ def sync_states(
         )
         for _ in range(dist.get_world_size(process_group))
     ]
+    for gathered_state in gathered_states:
+        # a metric without any state has no entry in the traversal order
+        for metric_name in states:
+            gathered_state.setdefault(metric_name, {})
 
     for metric_name, state_name in metrics_traversal_order:
         my_state_data = states[metric_name][
